@@ -348,9 +348,95 @@ def r14a(ctx, run):
               "every non-Mutable answer must produce a diagnostic; offending: %s" % bad)
 
 
+def r14d(ctx, run):
+    """the checker and the code generator agree on what `^mut <expr>` points at: wherever get_mutability looks THROUGH a form to find the place (its
+    answer for the form is its answer for the inner expression, same flags - parentheses), the code generator's Ref arm must take the address of that
+    inner place as well.  Otherwise `^mut (x)` type-checks as a mutable reference to `x` and the program writes to a copy.  The Ref arm is evaluated
+    from source for a local and for a (doubly) parenthesised local."""
+    from symint import SymInterp
+    from absint import Obj, Term, Variant, Panic, CannotEstablish, _Return
+    fnm, rows = table(ctx)
+    transparent = sorted({kind for kind, cfg, deref, assignment, r in rows
+                          if isinstance(r, Term) and r.op == "rec" and r.args[1] == assignment and r.args[2] == deref and kind in ("Paren",)})
+    if "Paren" not in transparent:
+        run.ok(fnm.site(), "get_mutability does not look through parentheses: nothing to agree on")
+        return
+    sfn = ctx.syn.fn("FunctionCompiler::compile_expr_with_args", "codegen/src/compiler/functions.rs")
+    arm = None
+    for m in synq.matches_on(sfn.body):
+        for h, p_, g, b, a in synq.match_table(m):
+            if h and h.endswith("Expr::Ref"):
+                arm = (p_, b, a)
+    if arm is None:
+        raise LookupError("Expr::Ref arm of compile_expr_with_args")
+    V = Variant
+    e0, e1, e2 = Term("e0"), Term("e1"), Term("e2")
+    local = V("hir::Expr::Local", {"0": Term("x")})
+
+    def run_ref(bodies, start):
+        log = []
+
+        class RI(SymInterp):
+            def eval(self, e, env):
+                if e.get("k") == "index":
+                    base = canon(e["e"])
+                    if base.startswith("self.world_bodies["):
+                        key = self.eval(e["i"], env)
+                        return bodies.get(key, V("hir::Expr::Missing"))
+                    if base.startswith("self.tys["):
+                        return Obj("ty")
+                if e.get("k") in ("ref",) or (e.get("k") == "un" and e.get("op") in ("*", "&")):
+                    return self.eval(e["e"], env)
+                return super().eval(e, env)
+
+            def default_method(self, recv, m, args, e):
+                if isinstance(recv, Obj) and recv.name == "ty":
+                    if m == "is_aggregate":
+                        return False
+                    return Term(m)
+                if isinstance(recv, Obj) and recv.name == "self":
+                    if m in ("compile_expr_with_args", "compile_expr"):
+                        log.append((m, args[0], args[1] if len(args) > 1 else False))
+                        return Term("value_of", args[0])
+                if m == "is_some":
+                    return recv is not None
+                if isinstance(recv, (Term, Obj)):
+                    if m == "stack_store":
+                        log.append(("stack_store", args[0]))
+                    return Term(m)
+                if m == "is_some":
+                    return recv is not None
+                return super().default_method(recv, m, args, e)
+        it = RI(funcs={"Some": lambda i, a: a[0]})
+        env = {"self": Obj("self", builder=Term("builder"), ptr_ty=Term("ptr_ty"), loc=Term("loc")), "no_load": False}
+        pat = arm[0]
+        if not it.bind(pat, V("hir::Expr::Ref", {"expr": start, "mutable": True}), env):
+            raise CannotEstablish("the Ref arm's pattern")
+        try:
+            it.eval(arm[1], env)
+        except _Return:
+            pass
+        return log
+    cases = [("`^mut x`", {e0: local}, e0, e0), ("`^mut (x)`", {e0: V("hir::Expr::Paren", {"0": e1}), e1: local}, e0, e1),
+             ("`^mut ((x))`", {e0: V("hir::Expr::Paren", {"0": e1}), e1: V("hir::Expr::Paren", {"0": e2}), e2: local}, e0, e2)]
+    for desc, bodies, start, place in cases:
+        try:
+            log = run_ref(bodies, start)
+        except (Panic, CannotEstablish) as c:
+            run.finding(sfn.qual, "ref-place:" + desc, sfn.file, arm[2]["ln"], "cannot establish what the Ref arm does for %s: %s" % (desc, getattr(c, "what", c)))
+            continue
+        addr = [x for x in log if x[0] == "compile_expr_with_args" and x[2] is True]
+        copied = [x for x in log if x[0] == "stack_store"]
+        good = bool(addr) and not copied
+        run.check(good, sfn.site(arm[2]["ln"]), "%s: the address of the place is taken (no copy)" % desc, sfn.qual, "ref-place:" + desc, sfn.file, arm[2]["ln"],
+                  "for %s the code generator stores the value into a new stack slot and returns that slot's address, while get_mutability looks through the parentheses and "
+                  "answers for `x`: the reference type-checks as a mutable reference to `x`, and writes through it change a copy" % desc)
+
+
 def rules(ctx):
     return [
         Rule("R14.a", "assignment and `^mut` reference consult get_mutability with the right arguments and reject on any diagnostic", 7, r14a),
         Rule("R14.b", "immutable roots: `::` local, parameter, global, file member (decision table of get_mutability)", 40, r14b),
+        Rule("R14.d", "`^mut (x)` points at `x`: forms get_mutability looks through are looked through by the code generator's Ref arm", 3, r14d),
         Rule("R14.c", "Mutable through a dereference only behind a `^mut` pointer type; deref/index/paren recursion flags", 20, r14c),
     ]
